@@ -362,3 +362,9 @@ MUTANTS += [
       (Q, "    table = _qkidsTables.get(competition_type,None)\n", "    table = _qkidsTables.get(competition_type,None) or _last.get('t')\n    _last['t'] = table\n"),
       (Q, "def qkids_score(", "_last = {}\ndef qkids_score(")]),
 ]
+
+MUTANTS += [
+ dict(id='c12-relay-distance-leg', props=['C12', 'C10'], file=U, old="        return int(m.group(1)) * leg", new="        return leg"),
+ dict(id='c12-record-gender-case', props=['C12'], file=U, old="    gender = gender.lower()\n    if gender not in FIELD_EVENT_RECORDS_BY_GENDER:", new="    if gender not in FIELD_EVENT_RECORDS_BY_GENDER:"),
+ dict(id='c12-marathon-distance', props=['C12'], file=U, old="    elif discipline == 'MAR':\n        return 42195", new="    elif discipline == 'MAR':\n        return 4219"),
+]
